@@ -61,6 +61,7 @@ def run(ctx):
     _r24(ctx, prog, M, T)
     _r25(ctx, prog, M, T)
     _r26(ctx, prog, M, T)
+    _r28(ctx, prog, M, T)
     # R2.7: every part keeps exactly one resolvable content type (the Default/Override decision and its inverse lookup)
     from checks.c01 import content_type_rules
 
@@ -695,3 +696,74 @@ def _r26(ctx, prog, M, T):
 
     writer_closure_rules(ctx, prog, "R2.6")
 
+
+
+# -- R2.8 ---------------------------------------------------------------------------------------------
+def _identity_eq(f):
+    """`__eq__` that is identity: every return is `self is other`, `id(self) == id(other)`, NotImplemented, False, or super's"""
+    ps = [a.arg for a in f.node.args.args]
+    if len(ps) != 2:
+        return False
+    a, b = ps
+    for r in [x for x in ast.walk(f.node) if isinstance(x, ast.Return)]:
+        v = r.value
+        if v is None:
+            return False
+        if isinstance(v, ast.Constant) and v.value is False:
+            continue
+        if isinstance(v, ast.Name) and v.id == "NotImplemented":
+            continue
+        if isinstance(v, ast.Compare) and len(v.ops) == 1 and isinstance(v.ops[0], ast.Is) and {dotted(v.left), dotted(v.comparators[0])} == {a, b}:
+            continue
+        if isinstance(v, ast.Compare) and len(v.ops) == 1 and isinstance(v.ops[0], ast.Eq) \
+                and {ast.unparse(v.left), ast.unparse(v.comparators[0])} == {"id(%s)" % a, "id(%s)" % b}:
+            continue
+        if isinstance(v, ast.Call) and (dotted(v.func) or "").endswith(".__eq__") and (dotted(v.func) or "").startswith(("super()", "object")):
+            continue
+        return False
+    return True
+
+
+def _r28(ctx, prog, M, T):
+    """The package walk yields each part once by keeping the parts it has seen in a set (`if part in visited`): membership in a set
+    is by __hash__ / __eq__.  With the default (identity) two distinct parts are never taken for each other; a part class that
+    defines equality by content makes the walk drop the second of two equal parts: it is not written and gets no content type."""
+    ctx.rule("R2.8", "the package walk tells parts apart by identity: no part class defines equality or hashing by content")
+    pk = prog.modules.get("pptx.opc.package")
+    opc = pk.classes.get("OpcPackage") if pk else None
+    part = pk.classes.get("Part") if pk else None
+    ip = prog.lookup(opc, "iter_parts") if opc else None
+    if not (opc and part and ip):
+        raise AnalysisError("anchor vanished: OpcPackage.iter_parts / Part")
+    from sa.inline import walk_expanded
+
+    # how does the walk remember the parts it has yielded?  a set / dict tested with `in` (equality), or ids (identity)
+    by_equality, by_identity = [], []
+    for n, owner in walk_expanded(prog, ip, depth=2):
+        if isinstance(n, ast.Compare) and len(n.ops) == 1 and isinstance(n.ops[0], (ast.In, ast.NotIn)):
+            l = ast.unparse(n.left)
+            (by_identity if l.startswith("id(") else by_equality).append("%s:%d `%s`" % (owner.qualname, n.lineno, ast.unparse(n)))
+    classes = [c for c in prog.all_classes() if part in prog.mro(c)]
+    ctx.count("part_classes", len(classes))
+    if not by_equality and not by_identity:
+        ctx.error("OpcPackage.iter_parts", "how the walk recognises a part it has already yielded is not recognised")
+        return
+    n_def = 0
+    for c in classes:
+        eq, hs = c.methods.get("__eq__"), c.methods.get("__hash__")
+        key = "%s.__eq__" % c.name
+        if eq is None and hs is None:
+            continue
+        n_def += 1
+        if not by_equality:
+            ctx.ok("R2.8", key, sample={"walk": "remembers ids", "class": c.fq})
+        elif eq is not None and not _identity_eq(eq):
+            ctx.violation("R2.8", key, "%s defines equality that is not identity, and the package walk (%s) recognises visited parts by "
+                          "equality: of two distinct parts that compare equal only the first is yielded, the other is not saved and gets "
+                          "no content type" % (c.name, by_equality[0]), file=c.file, line=eq.line)
+        elif eq is None and hs is not None:
+            ctx.error(key, "%s defines __hash__ without __eq__: not decided" % c.name)
+        else:
+            ctx.ok("R2.8", key, sample={"class": c.fq, "equality": "identity"})
+    ctx.ok("R2.8", "part classes", sample={"part_classes": len(classes), "defining __eq__/__hash__": n_def,
+                                           "walk": (by_equality or by_identity)[0]})
